@@ -43,13 +43,24 @@ func c13Doc(t *rapid.T, tag string) map[string]any {
 	for i := 0; i < nu; i++ {
 		us = append(us, map[string]any{"id" + tag: float64(rapid.IntRange(1, 3).Draw(t, "uid")), "b" + tag: rapid.SampledFrom([]string{"p", "q"}).Draw(t, "b")})
 	}
-	return map[string]any{"t" + tag: rows, "u" + tag: us}
+	doc := map[string]any{"t" + tag: rows, "u" + tag: us}
+	// now and then a table with more distinct keys than any pool, batch or semaphore is likely to be sized for
+	if n := rapid.SampledFrom([]int{0, 0, 0, 0, 70, 150, 300}).Draw(t, "wide_rows"); n > 0 {
+		w := make([]any, n)
+		for i := range w {
+			w[i] = map[string]any{"id" + tag: float64(i + 1), "a" + tag: 10.0}
+		}
+		doc["w"+tag] = w
+	} else {
+		doc["w"+tag] = []any{map[string]any{"id" + tag: 1.0, "a" + tag: 10.0}, map[string]any{"id" + tag: 2.0, "a" + tag: 10.0}}
+	}
+	return doc
 }
 
 // c13Query draws one query over a document built with the given tag.
 func c13Query(t *rapid.T, tag string, site int, readOnlyOnly bool, onlyKind ...string) (q string, orderOpen bool, kind string, reader bool) {
 	kinds := []string{"filter", "subquery", "exists", "join", "pjoin", "group", "async", "order", "cte", "phash", "reader", "in_sub", "spinasync", "derived",
-		"range_reader", "range_from", "distinct_reader", "cte_async", "derived_async", "sub_async", "range_col", "pjoin_fail", "var_corunner", "join_using", "union", "distinct_wide", "distinct_wide_reader", "cte_join_using", "cte_self_pjoin", "like", "like", "cte_direct_slow", "sub2_async", "constants", "report", "pjoin_on_exists", "pjoin_on_exists", "async_reads_scope", "spin_reads_rows", "global_in_pjoin_on", "pjoin_on_union", "await_sub", "pjoin_on_func"}
+		"range_reader", "range_from", "distinct_reader", "cte_async", "derived_async", "sub_async", "range_col", "pjoin_fail", "var_corunner", "join_using", "union", "distinct_wide", "distinct_wide_reader", "cte_join_using", "cte_self_pjoin", "like", "like", "cte_direct_slow", "sub2_async", "constants", "report", "pjoin_on_exists", "pjoin_on_exists", "async_reads_scope", "spin_reads_rows", "global_in_pjoin_on", "pjoin_on_union", "await_sub", "pjoin_on_func", "pjoin_many_fail"}
 	if len(onlyKind) > 0 {
 		// (bundles made of one kind only: a known finding is attached to that kind, see known_findings.json)
 		kinds = onlyKind
@@ -159,11 +170,28 @@ func c13Query(t *rapid.T, tag string, site int, readOnlyOnly bool, onlyKind ...s
 		// ON fails (not boolean) for every left key: several workers fail at once
 		jt := rapid.SampledFrom([]string{"PARALLEL JOIN", "PARALLEL LEFT JOIN", "PARALLEL STRAIGHT_JOIN", "PARALLEL RIGHT JOIN"}).Draw(t, "pfjt")
 		return fmt.Sprintf("SELECT * FROM %s x %s %s y ON x.%s %s y.%s AND x.%s", T, jt, U, id, rapid.SampledFrom([]string{"=", "<", ">="}).Draw(t, "pfop"), id, s), true, kind, false
+	case "pjoin_many_fail":
+		// every worker of a PARALLEL join over the wide table fails (the generator plants a fault for the literal argument;
+		// a function in ON is accepted as a boolean conjunct and sees literals only): whatever the failing workers hold - a slot of a pool, a semaphore, a place in a batch -
+		// has to be given back, or this client's failures stall everybody's joins
+		// (the wide table stands on the side whose keys the workers are started for: the preserved side of an outer join,
+		// the left side of a STRAIGHT_JOIN, the right side of an inner join)
+		switch rapid.SampledFrom([]string{"PARALLEL LEFT JOIN", "PARALLEL STRAIGHT_JOIN", "PARALLEL JOIN", "PARALLEL RIGHT JOIN"}).Draw(t, "pmfjt") {
+		case "PARALLEL LEFT JOIN":
+			return fmt.Sprintf("SELECT * FROM w%s x PARALLEL LEFT JOIN %s y ON x.%s >= y.%s AND fid(%d, TRUE)", tag, U, id, id, site), true, kind, false
+		case "PARALLEL STRAIGHT_JOIN":
+			return fmt.Sprintf("SELECT * FROM w%s x PARALLEL STRAIGHT_JOIN %s y ON x.%s >= y.%s AND fid(%d, TRUE)", tag, U, id, id, site), true, kind, false
+		case "PARALLEL RIGHT JOIN":
+			return fmt.Sprintf("SELECT * FROM %s x PARALLEL RIGHT JOIN w%s y ON x.%s <= y.%s AND fid(%d, TRUE)", U, tag, id, id, site), true, kind, false
+		}
+		return fmt.Sprintf("SELECT * FROM %s x PARALLEL JOIN w%s y ON x.%s <= y.%s AND fid(%d, TRUE)", U, tag, id, id, site), true, kind, false
 	case "pjoin_on_func":
 		// a user function in the ON of a PARALLEL join: with faults placed by argument value several workers fail, each in
 		// its own way (a returned error, a panic with an error, a panic with a string)
 		jt := rapid.SampledFrom([]string{"PARALLEL JOIN", "PARALLEL LEFT JOIN", "PARALLEL STRAIGHT_JOIN"}).Draw(t, "pofjt")
-		return fmt.Sprintf("SELECT * FROM %s x %s %s y ON x.%s <= y.%s AND fid(%d, x.%s) >= 0", T, jt, U, id, id, site, a), true, kind, false
+		// (a function in ON is accepted as a boolean conjunct only, and sees literals only: as an operand of a comparison it is
+		// refused when the query is built - the shape drawn here until wave 9 was such a query and exercised nothing)
+		return fmt.Sprintf("SELECT * FROM %s x %s %s y ON x.%s <= y.%s AND fid(%d, TRUE)", T, jt, U, id, id, site), true, kind, false
 	case "var_corunner":
 		// user code on an ASYNC goroutine writes the query's variable context through the exported
 		// SETVAR function while nested selects of the same statement read it
@@ -207,6 +235,7 @@ func genC13(t *rapid.T) *Bundle {
 	exp := c13Expect{Config: config}
 	site := 0
 	kindsUsed := map[string]bool{}
+	var manyFail []int
 	var varsets []map[string]any
 	tagFor := func(ci int) string {
 		if config == "separate_cold" {
@@ -237,6 +266,9 @@ func genC13(t *rapid.T) *Bundle {
 				// one time in three the query is built without WithVars: the variable context starts out nil
 				varsets = append(varsets, map[string]any{})
 				vi = len(varsets) - 1
+			}
+			if qkind == "pjoin_many_fail" {
+				manyFail = append(manyFail, site)
 			}
 			cl.Ops = append(cl.Ops, casefmt.Op{Doc: di, Vars: vi, Query: q, Reader: reader, ConstShared: qkind == "constants"})
 			kindsUsed[qkind] = true
@@ -290,13 +322,16 @@ func genC13(t *rapid.T) *Bundle {
 		sites = append(sites, i)
 	}
 	c.Stubs.Lat = drawLatencies(t, sites, 4)
+	for _, ms := range manyFail {
+		c.Stubs.Faults = append(c.Stubs.Faults, casefmt.Fault{ID: ms, Arg: "b:true", Kind: rapid.SampledFrom([]string{"panic", "panic_str", "error", "panic"}).Draw(t, "many_fail_kind")})
+	}
 	// user code failing on some rows: placed by argument value, so the same
 	// rows fail in the concurrent run and in each solo run
 	if rapid.IntRange(0, 2).Draw(t, "with_faults") == 0 {
 		nf := rapid.IntRange(1, 3).Draw(t, "nfaults")
 		for i := 0; i < nf; i++ {
 			c.Stubs.Faults = append(c.Stubs.Faults, casefmt.Fault{ID: rapid.SampledFrom(sites).Draw(t, "fault_site"),
-				Arg:  rapid.SampledFrom([]string{"n:0", "n:10", "n:20", "n:1", "n:2"}).Draw(t, "fault_arg"),
+				Arg:  rapid.SampledFrom([]string{"n:0", "n:10", "n:20", "n:1", "n:2", "b:true"}).Draw(t, "fault_arg"),
 				Kind: rapid.SampledFrom([]string{"error", "panic", "panic_str"}).Draw(t, "fault_kind")})
 		}
 	}
